@@ -2,7 +2,7 @@ package dnsforward
 
 import (
 	"context"
-	"encoding/binary"
+	"fmt"
 	"net"
 	"net/netip"
 	"strings"
@@ -178,10 +178,20 @@ func (s *Server) processInitial(dctx *dnsContext) (rc resultCode) {
 	}
 
 	// Get the ClientID, if any, before getting client-specific filtering
-	// settings.
-	var key [8]byte
-	binary.BigEndian.PutUint64(key[:], pctx.RequestID)
-	dctx.clientID = string(s.clientIDCache.Get(key[:]))
+	// settings.  Extract it from the request again instead of passing it from
+	// [Server.HandleBefore] through a storage keyed by pctx.RequestID:  these
+	// identifiers are only unique within a single proxy instance, while the
+	// connections accepted by the previous instance can still send requests
+	// after a reconfiguration.
+	var err error
+	dctx.clientID, err = s.clientIDFromDNSContext(pctx)
+	if err != nil {
+		// The server name settings have been changed since the check in
+		// [Server.HandleBefore].
+		dctx.err = fmt.Errorf("getting clientid: %w", err)
+
+		return resultCodeError
+	}
 
 	// Get the client-specific filtering settings.
 	dctx.protectionEnabled, _ = s.UpdatedProtectionStatus()
